@@ -336,7 +336,11 @@ def unit_expgrid(modname, natm):
             m = {}
             for u in geo:
                 for i, j in itertools.product(range(natm), repeat=2):
-                    if nfc.equal(u.args[0], sq_dist(c[i], c[j])):
+                    try:
+                        hit = nfc.equal(u.args[0], sq_dist(c[i], c[j]))
+                    except NFError:
+                        hit = False          # not a polynomial in the coordinates (a max / min inside): certainly not a squared pairwise distance
+                    if hit:
                         m[u] = dvar(i, j)
                         break
             return tm.substitute(t_, m), [u for u in geo if u not in m]
@@ -374,7 +378,9 @@ def unit_expgrid(modname, natm):
             same("%s alpha0 with the atoms relabelled %s = alpha0" % (tag, list(p)), b0, a0)
             same("%s nalpha with the atoms relabelled %s = nalpha" % (tag, list(p)), nb, na)
         A, left = abstract(a0)
-        ctx.canary("%s canary" % tag, Hd, A, 2 * A)
+        if not left:
+            # (when some geometric quantity is not a pairwise distance the obligation below is refuted outright; the canary guards the abstracted comparison only)
+            ctx.canary("%s canary" % tag, Hd, A, 2 * A)
         ctx.holds("%s the coordinates enter alpha0 only through pairwise distances |R_i - R_j| (rotations and reflections preserve them: lemma/distances)" % tag,
                   not left and A is not a0, "other geometric quantities: %s" % [tm.show(u, 80) for u in left[:2]], fq, replay=replay_expgrid(modname))
         rest = [v.args[0] for v in tm.free_vars(A) if v.args[0][0] == "R"]
@@ -408,7 +414,20 @@ def replay_expgrid(modname):
             mol = gto.M(atom=[["O", np.array([0, 0, 0.2]) + shift], ["H", np.array([0, 0.8, -0.4]) + shift], ["H", np.array([0, -0.8, -0.4]) + shift]], basis="sto-3g", unit="Bohr", verbose=0)
             g = m.EXXSphGenerator.from_settings_and_mol(SDMXSettings([0, 1]), 1, mol)
             out.append((float(g.plan.alpha0), int(g.plan.nalpha)))
-        return {"reproduced": bool(abs(out[0][0] - out[1][0]) > 1e-14 * out[0][0] or out[0][1] != out[1][1]), "alpha0_nalpha_original": out[0], "alpha0_nalpha_translated": out[1]}
+        # a rotated copy too (a rotation outside the octahedral group: 3-4-5 rotation about z followed by one about x)
+        c_, s_ = 0.6, 0.8
+        Rz = np.array([[c_, -s_, 0], [s_, c_, 0], [0, 0, 1.0]])
+        Rx = np.array([[1.0, 0, 0], [0, 5 / 13, -12 / 13], [0, 12 / 13, 5 / 13]])
+        base = np.array([[0, 0, 0.2], [0, 0.8, -0.4], [0.3, -0.8, -0.4]])
+        rot = []
+        for M_ in (np.eye(3), Rx.dot(Rz)):
+            xyz = base.dot(M_.T)
+            mol = gto.M(atom=[["O", xyz[0]], ["H", xyz[1]], ["H", xyz[2]]], basis="sto-3g", unit="Bohr", verbose=0)
+            g = m.EXXSphGenerator.from_settings_and_mol(SDMXSettings([0, 1]), 1, mol)
+            rot.append((float(g.plan.alpha0), int(g.plan.nalpha)))
+        bad_t = abs(out[0][0] - out[1][0]) > 1e-13 * out[0][0] or out[0][1] != out[1][1]
+        bad_r = abs(rot[0][0] - rot[1][0]) > 1e-13 * rot[0][0] or rot[0][1] != rot[1][1]
+        return {"reproduced": bool(bad_t or bad_r), "alpha0_nalpha_original": out[0], "alpha0_nalpha_translated": out[1], "alpha0_nalpha_before_rotation": rot[0], "alpha0_nalpha_after_rotation": rot[1]}
     return replay
 
 
@@ -1203,6 +1222,49 @@ SPH_DEGREES = list(range(1, 16)) if THOROUGH else [1, 2, 3, 4, 6, 10]
 SPH_DERIV_DEGREES = list(range(1, 11)) if THOROUGH else [1, 2, 4, 6]
 
 
+SET_IDX_CASES = [
+    # (ga_loc, idx_map): atoms' grid ranges in the atom-ordered array, and the map from sorted / screened grid points into it (any order, any subset)
+    ([0, 3, 5], [0, 1, 2, 3, 4]), ([0, 3, 5], [4, 3, 2, 1, 0]), ([0, 3, 5], [3, 0, 4]), ([0, 2, 2, 6], [5, 1, 2, 0, 4, 3]), ([0, 1, 2, 3], [2, 0, 1]),
+    ([0, 4], [3, 1]), ([0, 2, 5, 9], [2, 8, 5, 4, 0, 1]),
+]
+
+
+def replay_set_idx(wit):
+    from pyvc import native
+    native.install_shim()
+    from ciderpress.dft.grids_indexer import AtomicGridsIndexer as A
+    ga, idx = [int(x) for x in wit["ga_loc"]], [int(x) for x in wit["idx_map"]]
+    o = A.__new__(A)
+    o.natm, o.ga_loc, o.all_weights = len(ga) - 1, np.asarray(ga, dtype=np.int32), np.ones(ga[-1])
+    o.set_idx(np.asarray(idx))
+    want = [max(a for a in range(len(ga) - 1) if ga[a] <= g) for g in idx]
+    want = [[a for a in range(len(ga) - 1) if ga[a] <= g < ga[a + 1]][0] for g in idx]
+    return {"reproduced": bool(list(o.iatom_list) != want), "iatom_list": [int(x) for x in o.iatom_list], "owner_by_ga_loc": want}
+
+
+def unit_set_idx(ctx):
+    """AtomicGridsIndexer.set_idx: iatom_list (the atom each sorted grid point belongs to — what the onsite-direct interpolator and the l=1 terms use to leave a point
+    out of, or attribute it to, its own atom) must name, for every point, THE atom whose range [ga_loc[a], ga_loc[a+1]) contains its atom-ordered index; relabelling
+    the atoms then relabels the list and nothing else.  Real method on concrete tables (bounded: the cases of SET_IDX_CASES, including empty atoms, subsets, any order)."""
+    GM = "ciderpress.dft.grids_indexer"
+    it = ctx.interp
+    gm = it.load_module(GM)
+    fq = [GM + ":AtomicGridsIndexer.set_idx"]
+    for ga, idx in SET_IDX_CASES:
+        o = Obj(gm.ns["AtomicGridsIndexer"])
+        o.fields.update({"natm": len(ga) - 1, "ga_loc": np.asarray(ga, dtype=np.int32), "all_weights": np.ones(ga[-1])})
+        tag = "set_idx[ga_loc=%s, idx_map=%s]" % (ga, idx)
+        try:
+            it.call_method(o, "set_idx", [np.asarray(idx)])
+            got = [int(x) for x in np.asarray(o.fields["iatom_list"]).reshape(-1)]
+        except (Unsupported, PyRaise, TypeError, ValueError) as e:
+            ctx.undecided("%s runs" % tag, str(e)[:200], fq)
+            continue
+        want = [[a for a in range(len(ga) - 1) if ga[a] <= g < ga[a + 1]][0] for g in idx]
+        ctx.bounded("%s: every point is attributed to the atom whose grid range contains it" % tag, got == want, "the tables of SET_IDX_CASES", "%s vs %s" % (got, want),
+                    witness={"ga_loc": ga, "idx_map": idx}, replay=replay_set_idx)
+
+
 def units():
     from contracts import c05, c02
     u = [("lemma/distances", unit_distance_lemma)]
@@ -1214,6 +1276,7 @@ def units():
     for level in ("GGA", "MGGA"):
         u.append(("l1-features/%s" % level, unit_l1_features(level)))
     u.append(("relabel/from_tabs", unit_relabel))
+    u.append(("relabel/set_idx", unit_set_idx))
     u.append(("dirs", unit_dirs))
     for L in SPH_DEGREES:
         u.append(("sph-harm/%d" % L, unit_sph_harm(L)))
